@@ -143,10 +143,11 @@ def main(argv):
                     mod.degen_case(case, i)
                 LOG.n("degenerate_cases")
         rj = getattr(mod, "REJECTED", None)
-        if rj and i % 13 == 5 and isinstance(case, dict) and isinstance(case.get(rj), list) and not case.get("scale"):
+        revery = getattr(mod, "REJECTED_EVERY", 13)
+        if rj and i % revery == 5 and isinstance(case, dict) and isinstance(case.get(rj), list) and not case.get("scale"):
             # every thirteenth case starts with a call that the library rejects (it raises); the legal call under test follows
             from vmon.checks.common import REJECTED_KINDS
-            op = {"op": "rejected", "kind": REJECTED_KINDS[(i // 13) % len(REJECTED_KINDS)]}
+            op = {"op": "rejected", "kind": REJECTED_KINDS[(i // revery) % len(REJECTED_KINDS)]}
             if case[rj] and isinstance(case[rj][0], list):
                 case[rj][0] = [op] + case[rj][0]
             else:
